@@ -1082,9 +1082,9 @@ private:
                 return;
             }
             rate_identity = hashed_token_identity(token_it->second);
-        } else if (token_it != request.fields.end()) {
-            rate_identity = hashed_token_identity(token_it->second);
         }
+        // Without a configured token the TOKEN header is unauthenticated input: the rate bucket
+        // stays keyed by the client address, or every request could pick a fresh bucket.
 
         std::chrono::seconds ttl = default_ttl;
         if (const auto ttl_it = request.fields.find("TTL"); ttl_it != request.fields.end()) {
@@ -1323,8 +1323,6 @@ private:
         if (stream_to_client) {
             std::string rate_identity = remote_identity;
             if (control_token.has_value()) {
-                rate_identity = hashed_token_identity(token_it->second);
-            } else if (token_it != fields.end()) {
                 rate_identity = hashed_token_identity(token_it->second);
             }
 
